@@ -438,6 +438,172 @@ pub fn check(case: &Case, ctx: &mut CaseCtx) -> CaseResult {
     Ok(())
 }
 
+// ------------------------------------------------------------------------------------------------
+// configured limits: "together with the window limit this keeps peak memory proportional to the
+// configured limit". A caller sets a limit of L bytes (any value, not only powers of two) and
+// streams a frame whose window is W: either the frame is refused, or what the decoder holds stays
+// within L + read size + one block. Frames are tiny (RLE blocks) with exactly chosen windows: a
+// single-segment frame has window = content size, so W can be any number.
+
+#[derive(Clone, Debug, Serialize, Deserialize)]
+pub struct LimitCase {
+    /// window of the frame: single-segment content size, or (exponent, mantissa) of a descriptor
+    pub single_segment: bool,
+    pub w: u32,
+    pub wd: u8,
+    /// the limit relative to the window: 0 exactly W, 1 W - delta, 2 W + delta, 3 W * num / 16
+    pub rel: u8,
+    pub delta: u32,
+    pub num: u8,
+    pub read: u32,
+    /// 0 StreamingDecoder, 1 decode_blocks(UptoBytes(read)) + read, 2 decode_all into a large target
+    pub drive: u8,
+    /// set the limit, decode a small frame, then the frame in question (limit must persist)
+    pub warm: bool,
+}
+
+fn limit_strategy() -> impl Strategy<Value = LimitCase> {
+    (
+        (any::<bool>(), prop_oneof![2 => 1_024u32..=300_000, 2 => 300_000u32..=3_000_000, 1 => 3_000_000u32..=20_000_000], (0u8..=13, 0u8..=7)),
+        (prop_oneof![1 => Just(0u8), 4 => Just(1u8), 1 => Just(2u8), 3 => Just(3u8)], prop_oneof![Just(1u32), 1u32..=1024, 1024u32..=400_000, 131_073u32..=2_000_000], 8u8..=15),
+        (prop_oneof![1u32..=64, 1000u32..=70_000], 0u8..=2, prop::bool::weighted(0.3)),
+    )
+        .prop_map(|((single_segment, w, (e, m)), (rel, delta, num), (read, drive, warm))| LimitCase { single_segment, w, wd: (e << 3) | m, rel, delta, num, read, drive, warm })
+}
+
+fn check_limit(case: &LimitCase, ctx: &mut CaseCtx) -> CaseResult {
+    // the frame: RLE blocks of 128 KiB (the last one shorter)
+    let window: u64 = if case.single_segment {
+        case.w as u64
+    } else {
+        let e = (case.wd >> 3) as u64;
+        let m = (case.wd & 7) as u64;
+        (1u64 << (10 + e)) + ((1u64 << (10 + e)) / 8) * m
+    };
+    let total: u64 = if case.single_segment { window } else { window + 3 * BLOCK as u64 + 77 };
+    let mut frame = vec![0x28, 0xB5, 0x2F, 0xFD];
+    if case.single_segment {
+        if total < 256 {
+            frame.push(0x20);
+            frame.push(total as u8);
+        } else if total < 65_792 {
+            frame.push(0x60);
+            frame.extend_from_slice(&((total - 256) as u16).to_le_bytes());
+        } else {
+            frame.push(0xA0);
+            frame.extend_from_slice(&(total as u32).to_le_bytes());
+        }
+    } else {
+        frame.push(0x00);
+        frame.push(case.wd);
+    }
+    let mut left = total;
+    let mut k = 0u8;
+    loop {
+        let n = left.min(BLOCK as u64);
+        left -= n;
+        let h = ((n as u32) << 3) | (1 << 1) | (left == 0) as u32;
+        frame.extend_from_slice(&h.to_le_bytes()[..3]);
+        frame.push(0x30 + (k % 64));
+        k = k.wrapping_add(1);
+        if left == 0 {
+            break;
+        }
+    }
+    let limit: u64 = match case.rel % 4 {
+        0 => window,
+        1 => window.saturating_sub(case.delta as u64),
+        2 => window + case.delta as u64,
+        _ => window * case.num as u64 / 16,
+    };
+    let mut dec = FrameDecoder::new();
+    dec.set_max_window_size(limit);
+    if case.warm {
+        let f = [0x28, 0xB5, 0x2F, 0xFD, 0x20, 0x01, 0x09, 0x00, 0x00, 0x41]; // single segment, one byte
+        let mut out = [0u8; 4];
+        ensure!(matches!(dec.decode_all(&f, &mut out), Ok(1)) || limit < 1, "machinery", "one-byte frame not decoded under limit {limit}");
+    }
+    let read = case.read.max(1) as usize;
+    let bound = limit + read as u64 + BLOCK as u64;
+    let mut max_held = 0usize;
+    let mut delivered = 0u64;
+    let meter = Meter::start();
+    let outcome: Result<(), String> = (|| match case.drive % 3 {
+        0 => {
+            let mut sd = StreamingDecoder::new_with_decoder(&frame[..], &mut dec).map_err(|e| format!("init: {e}"))?;
+            let mut buf = vec![0u8; read];
+            loop {
+                let r = sd.read(&mut buf);
+                let n = *r.as_ref().unwrap_or(&0);
+                max_held = max_held.max(sd.decoder.verif_buffer_len() + n);
+                let n = r.map_err(|e| format!("read: {e}"))?;
+                if n == 0 {
+                    break;
+                }
+                delivered += n as u64;
+            }
+            Ok(())
+        }
+        1 => {
+            let mut src = &frame[..];
+            dec.reset(&mut src).map_err(|e| format!("init: {e}"))?;
+            let mut buf = vec![0u8; read];
+            loop {
+                // (decode only when nothing is left to hand out: a caller that keeps asking for more
+                // blocks while taking one byte at a time holds what it asked for, not what the limit allows)
+                if !dec.is_finished() && dec.can_collect() == 0 {
+                    dec.decode_blocks(&mut src, BlockDecodingStrategy::UptoBytes(read)).map_err(|e| format!("decode_blocks: {e}"))?;
+                }
+                max_held = max_held.max(dec.verif_buffer_len());
+                let n = dec.read(&mut buf).map_err(|e| format!("read: {e}"))?;
+                delivered += n as u64;
+                if n == 0 && dec.is_finished() {
+                    break;
+                }
+            }
+            Ok(())
+        }
+        _ => {
+            // the caller's own target is the caller's memory: what the decoder holds on top of it
+            // is bounded by window + the 1 MiB it decodes per internal step
+            let mut out = vec![0u8; total as usize + 16];
+            let n = dec.decode_all(&frame, &mut out).map_err(|e| format!("decode_all: {e}"))?;
+            delivered = n as u64;
+            Ok(())
+        }
+    })();
+    let peak = meter.peak() as u64;
+    ctx.feat(["limit:equals_window", "limit:below_window", "limit:above_window", "limit:fraction_of_window"][(case.rel % 4) as usize]);
+    ctx.feat_if(limit & (limit.wrapping_sub(1)) != 0, "limit:not_a_power_of_two");
+    ctx.feat(if case.single_segment { "window:single_segment_content_size" } else { "window:descriptor" });
+    ctx.feat(["drive:streaming", "drive:upto_bytes+read", "drive:decode_all"][(case.drive % 3) as usize]);
+    ctx.feat_if(case.warm, "decoder:limit_set_before_an_earlier_frame");
+    match &outcome {
+        Err(_) => {
+            ctx.feat("outcome:refused");
+            // (whether a frame within the limit may be refused is C11's subject, not this one's)
+        }
+        Ok(()) => {
+            ctx.feat("outcome:decoded");
+            ensure!(delivered == total, "wrong_content", "{delivered} bytes delivered, the frame holds {total}");
+        }
+    }
+    // refused or not: what was held never exceeded the configured limit + request + one block
+    if case.drive % 3 != 2 {
+        ensure!(max_held as u64 <= bound, "held_exceeds_configured_limit", "a decoder limited to {limit} bytes of window held {max_held} bytes (read size {read}; bound {bound}) while decoding a frame with window {window} ({}); outcome {:?}",
+            if case.single_segment { "single segment" } else { "window descriptor" }, outcome.as_ref().map_err(|e| e.clone()));
+    }
+    let own = if case.drive % 3 == 2 { total + 16 } else { read as u64 };
+    let budget = 4 * (limit + read as u64 + (1 << 20) + BLOCK as u64) + own + (4 << 20);
+    ensure!(peak <= budget, "peak_heap_exceeds_budget", "peak live heap {peak} > budget {budget} under a configured limit of {limit} (window {window}, read {read}); outcome {:?}", outcome.as_ref().map_err(|e| e.clone()));
+    ctx.nontrivial = limit < window && limit & (limit.wrapping_sub(1)) != 0;
+    ctx.set_hash_bytes(&[&frame, &limit.to_le_bytes(), &[case.drive % 3, case.warm as u8], &case.read.to_le_bytes()]);
+    if ctx.nontrivial && total < 400_000 {
+        ctx.sample = Some(json!({"window": window, "limit": limit, "outcome": format!("{:?}", outcome), "max_held": max_held}));
+    }
+    Ok(())
+}
+
 pub fn run(eng: &Engine) {
     eng.set_rule("valid frames (three sources) and synthesized frames with one over-long compressed block (regenerated size around and far above 128 KiB, built from a few literals plus max-length matches, or from 20-bit RLE/raw literals), each driven by decode_blocks (All/UptoBlocks/UptoBytes, with or without draining), StreamingDecoder reads, decode_all (also with an undersized target), decode_from_to, on a new decoder or on one that has decoded a tiny frame declaring a 1..16 MiB window before; non-trivial = a block regenerating > 64 KiB, or valid content exceeding window + 128 KiB; distinct by (frame, drive) hash");
     eng.assume("held data observed through the hook FrameDecoder::verif_buffer_len and the per-thread counting allocator");
@@ -445,11 +611,14 @@ pub fn run(eng: &Engine) {
     let n = eng.tier.pick(12_000, 200_000);
     let tier = eng.tier;
     eng.run_stage("frames", n, || case_strategy(tier), check);
+    let nl = eng.tier.pick(30_000, 400_000);
+    eng.run_stage("configured_limits", nl, limit_strategy, check_limit);
 }
 
 pub fn replay(eng: &Engine, stage: &str, case: &Value) -> CaseResult {
     match stage {
         "frames" => eng.replay_value(stage, case, check),
+        "configured_limits" => eng.replay_value(stage, case, check_limit),
         _ => Err(Failure::new("machinery", format!("unknown stage {stage}"))),
     }
 }
